@@ -22,3 +22,39 @@ prop("C11",
      text="Every (a,b,f) of a boundary lattice and of a dense low cube is pushed through the real TscTimestamp::duration_since and compared with floor((b-a)*10^12/f) computed in 256-bit arithmetic; monotonicity, additivity defect in {0,1} and translation invariance are checked on all ordered lattice triples; Duration->ps on boundary Durations; Timer::measure_precision is run under virtual clocks stepping uniformly.",
      note="Trusted: the 256-bit reference arithmetic in harness/mc-seq/src/bigint.rs, the virtual clock seam (hook H5).",
      engine="S")
+
+
+LOOP_NOTE = "Trusted: the hooks (virtual clock in TscTimestamp, TallyCleared tap, facade re-exports), the site instrumentation in harness/common/loopdrv.rs and the trace checkers in harness/common/oracle.rs; loom slice additionally trusts the std facade models (harness/rt/src/shim_loom.rs)."
+
+prop("C01",
+     quick=[{"engine": "S", "bin": "loopmc", "args": ["--prop", "C01"], "parts": 4}],
+     thorough=[{"engine": "S", "bin": "loopmc", "args": ["--prop", "C01"], "parts": 8}],
+     assumptions=[
+         "sample_size and sample_count up to 3 (5 thorough), tuned size with 0..2 doublings; thread counts > 1 only under loom with T in {2,3}",
+         "panic points: n-th execution of a site for n in {0,1,last} (thorough adds 2,3,mid), one panic per run",
+         "zero-sized values carry no identity: for them the oracle counts events instead of tracking ids",
+     ],
+     technique="bounded-exhaustive enumeration of (entry point x input/output shape x options x panic point) on the real Bencher loop with identity-tagged values; trace-checking oracle; loom DPOR for T>1",
+     text="All 72 (entry point, input shape, output shape) instantiations x sample sizes x sample counts x {explicit, tuned, test} x input-counter sets x panic points are executed on the real sample loop under a virtual clock; every generated value carries an id and the event log is checked per id (generated once, counted once per counter, called once, dropped once after the timed section, output before input, one thread).",
+     note=LOOP_NOTE, engine="S+L")
+
+prop("C02",
+     quick=[{"engine": "S", "bin": "loopmc", "args": ["--prop", "C02"], "parts": 4}],
+     thorough=[{"engine": "S", "bin": "loopmc", "args": ["--prop", "C02"], "parts": 8}],
+     assumptions=[
+         "decides which calls and allocator operations fall between the two timestamp reads; that the CPU/compiler does not move instructions across the fences of time/fence.rs is outside any source-level execution model",
+         "allocation scripts: 6 scripts per site (5 sites), 14 code-path classes, sample sizes 1 and 2",
+     ],
+     technique="bounded-exhaustive enumeration of allocation scripts per closure site on the real loop with a mock allocator behind the real AllocProfiler; trace-checking oracle comparing stored tallies with a reference tally of the logged timed operations",
+     text="Every vector of allocation scripts (6^5) for generator / counter / benchmarked function / output destructor / input destructor is run on each of the 14 code-path classes; the oracle requires that between a thread's start and end reads only calls and their own allocator operations occur and that the tally stored for each sample equals the reference tally of exactly those operations.",
+     note=LOOP_NOTE, engine="S+L")
+
+prop("C03",
+     quick=[{"engine": "S", "bin": "loopmc", "args": ["--prop", "C03"], "parts": 8}],
+     thorough=[{"engine": "S", "bin": "loopmc", "args": ["--prop", "C03"], "parts": 8}],
+     assumptions=[
+         "n in {unset,0,1,2,3,5,100,257} x s in {0,1,2,3,1000} for T=1; T in {2,3} only within the loom bounds; 'all ways of setting them' is decided by the engine-Z runs of C15",
+     ],
+     technique="bounded-exhaustive enumeration of (n, s, mode, max_time=0, entry) on the real loop counting calls per thread; loom DPOR for T in {2,3}",
+     text="For every (n, s) of the grid, bench and test mode, with and without max_time = 0, on all six entry points the number of calls per thread, of recorded samples, the reserved storage in test mode and the samples/iters figures of the computed statistics are compared with s*ceil(n/T), T*ceil(n/T), 0 and their product.",
+     note=LOOP_NOTE, engine="S+L")
